@@ -176,6 +176,9 @@ def gen_rdms_spec(rng, n_rdm=(1, 6), n_cond=(3, 9), nan_prob=0.25, groupings=Tru
         spec['rdm_desc']['roi_xyz'] = {'values': [[float(u), u * 2.0, 1.0] for u in rdm_uids], 'container': 'array'}
     if dtypes and rng.chance(0.25):
         spec['neg'] = True
+    if dtypes and rng.chance(0.12) and nr > 1:
+        # a user-supplied 'index' for the RDMs (session number per subject ...): values repeat and are not positional
+        spec['rdm_desc']['index'] = {'values': [i % max(1, nr // 2) for i in range(nr)], 'container': rng.pick(['list', 'array'])}
     if dtypes:
         spec['dtype'] = rng.pick(['float64', 'float64', 'float64', 'int64', 'float32'])
     if rng.chance(nan_prob) and nc >= 4 and spec.get('dtype') != 'int64':
